@@ -49,7 +49,9 @@ uint64_t varintBitReaderRead(varintBitReader *r, size_t nBits) {
         size_t byteIdx = r->bitPos / 8;
         size_t bitIdx = 7 - (r->bitPos % 8); /* MSB first */
 
-        if ((r->buffer[byteIdx] >> bitIdx) & 1) {
+        /* Bits at or beyond totalBits are never fetched; they read as 0 */
+        if (r->bitPos < r->totalBits &&
+            ((r->buffer[byteIdx] >> bitIdx) & 1)) {
             result |= (1ULL << (nBits - 1 - i));
         }
         r->bitPos++;
@@ -104,7 +106,13 @@ size_t varintEliasGammaEncode(varintBitWriter *w, uint64_t value) {
 uint64_t varintEliasGammaDecode(varintBitReader *r) {
     /* Count leading zeros */
     size_t n = 0;
-    while (varintBitReaderRead(r, 1) == 0) {
+    for (;;) {
+        if (!varintBitReaderHasMore(r, 1)) {
+            return 0; /* Input exhausted inside the unary prefix */
+        }
+        if (varintBitReaderRead(r, 1) != 0) {
+            break;
+        }
         n++;
         if (n > 63) {
             return 0; /* Overflow protection */
@@ -114,6 +122,10 @@ uint64_t varintEliasGammaDecode(varintBitReader *r) {
     /* We've read the leading 1, now read remaining n bits */
     if (n == 0) {
         return 1;
+    }
+
+    if (!varintBitReaderHasMore(r, n)) {
+        return 0; /* Input exhausted inside the binary part */
     }
 
     uint64_t remaining = varintBitReaderRead(r, n);
@@ -193,10 +205,18 @@ uint64_t varintEliasDeltaDecode(varintBitReader *r) {
         return 0; /* Decode error */
     }
 
+    if (lenN > 64) {
+        return 0; /* No 64-bit value is that long: corrupt input */
+    }
+
     size_t n = (size_t)lenN - 1;
 
     if (n == 0) {
         return 1;
+    }
+
+    if (!varintBitReaderHasMore(r, n)) {
+        return 0; /* Input exhausted inside the binary part */
     }
 
     /* Read remaining n bits */
